@@ -533,7 +533,7 @@ Section HonestCoin.
     intros Hinv. pose proof Hinv as [Hown Hmin Hwf Hback]. unfold eth_tx.
     destruct (has_key a) eqn:Hk; cbn [negb]; [|intros [= <- <-]; split; [done|destruct c; cbn; lia]].
     apply has_key_not_module in Hk. hsimp.
-    destruct c as [to x|x|to x|m| |]; cbn [honest_user];
+    destruct c as [to x|x|to x|m| | |ow x]; cbn [honest_user];
       try (intros [= <- <-]; split; [done|cbn; lia]).
     - (* transfer *)
       destruct (std_transfer (tok s) a to x) as [[l1 lg]|] eqn:Htr; [|intros [= <- <-]; split; [done|cbn; lia]].
@@ -689,7 +689,7 @@ Section HonestCoin.
   Theorem coin_step (s : st ledger) o s' r : InvCoin s -> step HT cf s o = (s', r) ->
     InvCoin s' /\ gap s' = gap s + burn_of o r.
   Proof.
-    intros Hinv. destruct o as [a x|a b x|a b x|a b x|a c|a b x|a x| |e h|mint smod esc b x|success mint esc b x|mint esc b x|a cs];
+    intros Hinv. destruct o as [a x|a b x|a b x|a b x|a c|a b x|a x| |e h|mint smod esc b x|success mint esc b x|mint esc b x|a cs|ow x];
       cbn [step].
     - destruct (credit s true 0 a x) as [s1|] eqn:Hc; intros [= <- <-]; [|split; [done|cbn; lia]].
       destruct (coin_credit _ _ _ _ _ _ Hinv Hc). split; [done|cbn; lia].
@@ -713,6 +713,8 @@ Section HonestCoin.
       intros H. destruct (coin_refund _ _ _ _ _ _ _ Hinv H). split; [done|cbn; lia].
     - intros H. destruct (coin_refund _ _ _ _ _ _ _ Hinv H). split; [done|cbn; lia].
     - intros H. destruct (coin_batch _ _ _ _ _ Hinv H). split; [done|cbn; lia].
+    - (* Spend: the honest token gives nobody an allowance *)
+      hsimp. cbn [honest_user]. destruct (x <=? 0); intros [= <- <-]; (split; [done|cbn; lia]).
   Qed.
 End HonestCoin.
 
@@ -778,7 +780,7 @@ Section HonestExt.
     intros Hinv. pose proof Hinv as [Hown Hback]. unfold eth_tx.
     destruct (has_key a) eqn:Hk; cbn [negb]; [|intros [= <- <-]; done].
     apply has_key_not_module in Hk. hsimp.
-    destruct c as [to x|x|to x|m| |]; cbn [honest_user]; try (intros [= <- <-]; done).
+    destruct c as [to x|x|to x|m| | |ow x]; cbn [honest_user]; try (intros [= <- <-]; done).
     - destruct (std_transfer (tok s) a to x) as [[l1 lg]|] eqn:Htr; [|intros [= <- <-]; done].
       destruct (std_transfer_spec _ _ _ _ _ _ Htr) as (_ & _ & Hx & -> & _ & _ & Hz & _).
       pose proof (ext_hook_one s l1 a to x Hown) as Hh.
@@ -873,7 +875,7 @@ Section HonestExt.
 
   Theorem ext_step (s : st ledger) o s' r : InvExt s -> step HT cf s o = (s', r) -> InvExt s'.
   Proof.
-    intros Hinv. destruct o as [a x|a b x|a b x|a b x|a c|a b x|a x| |e h|mint smod esc b x|success mint esc b x|mint esc b x|a cs];
+    intros Hinv. destruct o as [a x|a b x|a b x|a b x|a c|a b x|a x| |e h|mint smod esc b x|success mint esc b x|mint esc b x|a cs|ow x];
       cbn [step].
     - destruct (credit s true 0 a x) as [s1|] eqn:Hc; intros [= <- <-]; [|done]. eapply ext_credit; eauto.
     - destruct (credit s false a b x) as [s1|] eqn:Hc; intros [= <- <-]; [|done]. eapply ext_credit; eauto.
@@ -906,6 +908,7 @@ Section HonestExt.
       destruct (convert_coin HT s1 b b x) as [s2 r2] eqn:Hcc.
       pose proof (ext_convert_coin _ _ _ _ _ _ Hinv1 Hcc). destruct r2; intros [= <- <-]; done.
     - apply ext_batch. done.
+    - hsimp. cbn [honest_user]. destruct (x <=? 0); intros [= <- <-]; done.
   Qed.
 End HonestExt.
 
@@ -926,7 +929,7 @@ Lemma holder_burns_none cf ops : no_holder_burn ops -> forall s, holder_burns cf
 Proof.
   induction ops as [|o r IH]; intros Hn s; cbn [holder_burns]; [done|].
   destruct (step HT cf s o) as [s' res]. rewrite IH.
-  - destruct o as [| | | |a c| | | | | | | |]; cbn; try lia. destruct c; cbn; try lia.
+  - destruct o as [| | | |a c| | | | | | | | |]; cbn; try lia. destruct c; cbn; try lia.
     exfalso. eapply Hn. left. done.
   - intros a x Hin. eapply Hn. right. exact Hin.
 Qed.
@@ -937,7 +940,7 @@ Proof.
   destruct (step HT cf s o) as [s' res] eqn:Hs.
   destruct (coin_step cf _ _ _ _ Hinv Hs) as [Hinv' Hg]. specialize (IH s' Hinv').
   assert (0 <= burn_of o res); [|lia].
-  destruct o as [| | | |a c| | | | | | | |]; cbn; try lia. destruct c; cbn; try lia.
+  destruct o as [| | | |a c| | | | | | | | |]; cbn; try lia. destruct c; cbn; try lia.
   destruct (N.eqb res OK) eqn:E; [|lia].
   (* a successful burn has a non-negative amount *)
   cbn [step] in Hs. unfold eth_tx in Hs. destruct (has_key a); cbn [negb] in Hs; [|injection Hs as _ <-; discriminate].
@@ -1011,7 +1014,7 @@ Qed.
 Theorem failed_step_no_effect {T} (tk : token T) cf (s : st T) o s' r :
   step tk cf s o = (s', r) -> r <> OK -> s' = s.
 Proof.
-  intros H Hr. destruct o as [a x|a b x|a b x|a b x|a c|a b x|a x| |e h|mint smod esc b x|success mint esc b x|mint esc b x|a cs];
+  intros H Hr. destruct o as [a x|a b x|a b x|a b x|a c|a b x|a x| |e h|mint smod esc b x|success mint esc b x|mint esc b x|a cs|ow x];
     cbn [step] in H.
   - destruct (credit s true 0 a x); injection H as <- <-; done.
   - destruct (credit s false a b x); injection H as <- <-; done.
@@ -1044,6 +1047,8 @@ Proof.
   - unfold batch_tx in H. destruct (negb (has_key a)); [injection H as <- <-; done|].
     destruct (batch_calls tk (tok s) SCRIPT cs) as [[t1 lg]|]; [|injection H as <- <-; done].
     destruct (hook tk cf (set_tok s t1) lg); injection H as <- <-; done.
+  - destruct (x <=? 0); [injection H as <- <-; done|].
+    destruct (call_user tk (tok s) THIEF (USpend ow x)) as [[t1 lg]|]; injection H as <- <-; done.
 Qed.
 
 (** * the transfer-to-module hook *)
@@ -1413,7 +1418,7 @@ Theorem mint_witnessed_spec {T} (tk : token T) cf (s : st T) o s' r :
   hook_ext cf = false -> own_mod s = false -> step tk cf s o = (s', r) -> mint_witnessed tk s s'.
 Proof.
   intros Hcf Hown H Hlt.
-  destruct o as [a x|a b x|a b x|a b x|a c|a b x|a x| |e h|mint smod esc b x|success mint esc b x|mint esc b x|a cs];
+  destruct o as [a x|a b x|a b x|a b x|a c|a b x|a x| |e h|mint smod esc b x|success mint esc b x|mint esc b x|a cs|ow x];
     cbn [step] in H.
   - destruct (credit s true 0 a x) as [s1|] eqn:Hc; injection H as <- <-; [|lia].
     destruct (credit_spec _ _ _ _ _ _ Hc) as (_ & _ & _ & _ & _ & Ho & _). congruence.
@@ -1482,6 +1487,8 @@ Proof.
     pose proof (hook_spec_ext_no_bank tk cf lg Hcf (set_tok s t1) Hown) as Hh.
     destruct (hook tk cf (set_tok s t1) lg) as [s2|]; injection H as <- <-; [|lia].
     destruct Hh as [Hs _]. cbn in Hs. lia.
+  - destruct (x <=? 0); [injection H as <- <-; lia|].
+    destruct (call_user tk (tok s) THIEF (USpend ow x)) as [[t1 lg]|]; injection H as <- <-; cbn in Hlt; lia.
 Qed.
 
 (** ... and the pinned tree violates it (K7) *)
